@@ -419,6 +419,53 @@ class T(Entity):
 }
 
 
+def select_family():
+    """select_with / match over every selector type x default or not x context x choice coverage"""
+    out = {}
+    SEL = {
+        "bit": ("Bit", ["False", "True"], "self.sb"),
+        "bv2": ("BitVector[2]", ['"00"', '"01"', '"10"', '"11"'], "self.sv"),
+        "u2": ("Unsigned[2]", ["0", "1", "2", "3"], "self.su"),
+        "s2": ("Signed[2]", ["0", "1", "-1", "-2"], "self.ss"),
+        "bvslice": ("BitVector[2]", ['"00"', '"01"', '"10"', '"11"'], "self.w[2:1]"),
+        "ubit": ("Bit", ["False", "True"], "self.su[1]"),
+        "enum": ("E", ["E.a", "E.b", "E.c"], "se"),
+    }
+    for sname, (ty, keys, expr) in SEL.items():
+        for cover in ("partial", "full"):
+            ks = keys[:2] if cover == "partial" else keys
+            if cover == "partial" and len(keys) == 2:
+                ks = keys[:1]
+            for dflt in (True, False):
+                for ctx in ("conc", "seq"):
+                    d = "{" + ", ".join(f"{k}: Unsigned[2]({i})" for i, k in enumerate(ks)) + "}"
+                    call = f"cohdl.select_with({expr}, {d}" + (", default=Unsigned[2](3))" if dflt else ")")
+                    pre = "        se = Signal[E](E.a, name='se')\n        @std.sequential(std.Clock(self.clk))\n        def drv():\n            if self.sb:\n                se.next = E.b\n            else:\n                se.next = E.c\n" if sname == "enum" else ""
+                    deco = "@std.concurrent" if ctx == "conc" else "@std.sequential(std.Clock(self.clk))"
+                    src = HDR + f'''
+class E(enum.Enum):
+    a = enum.auto()
+    b = enum.auto()
+    c = enum.auto()
+class T(Entity):
+    clk = Port.input(Bit)
+    sb = Port.input(Bit)
+    sv = Port.input(BitVector[2])
+    su = Port.input(Unsigned[2])
+    ss = Port.input(Signed[2])
+    w = Port.input(BitVector[4])
+    o = Port.output(Unsigned[2])
+    def architecture(self):
+{pre}        {deco}
+        def logic():
+            self.o <<= {call}
+'''
+                    out[f"select/{sname}/{cover}/{'default' if dflt else 'nodefault'}/{ctx}"] = src
+    return out
+
+STRUCT.update(select_family())
+
+
 def work_struct(name):
     return (name, analyse(STRUCT[name]))
 
